@@ -284,6 +284,7 @@ Theorem non_negative_parafac_hals_nonneg utm utu solve inner stop nn sps nm mode
   vnn (fst out) /\ forall m, In m nn -> mnn (nth m (snd out) []).
 Proof.
   intros Hw HF out. change (cp_inv (fun m => In m nn) out). unfold out, non_negative_parafac_hals.
+  destruct modes as [|m0 modes']; [split; auto|]. set (modes := m0 :: modes').
   apply outer_loop_inv.
   - intros it s Hs. apply fold_left_inv; auto. intros; apply cp_hals_mode_inv; auto.
   - intros; apply cp_fin_inv; auto.
@@ -374,6 +375,10 @@ Proof.
       * rewrite app_nth1 in * by auto. auto.
       * rewrite app_nth2 in * by lia. destruct (m - length (rev r))%nat; simpl in *; auto. apply mul_cols_nn; auto.
 Qed.
+
+Lemma initialize_cp_user_norm_inv (D : nat -> Prop) w Fs nm :
+  vnn w -> (forall m, D m -> mnn (nth m Fs [])) -> cp_inv D (initialize_cp_user_norm Rops nrm w Fs nm).
+Proof. intros Hw HF. unfold initialize_cp_user_norm. apply cp_fin_inv. apply initialize_cp_user_inv; auto. Qed.
 
 Lemma line_step_from_nth nn jump (P : nat -> list (list R) -> Prop) :
   (forall k, P k []) -> (forall k L C, P k (line_entry Rops nn jump k L C)) ->
